@@ -29,6 +29,7 @@ type Obligation struct {
 	Output   string
 	Model    string
 	Gen      string // non-empty: could not be generated (reason)
+	Decided  string // non-empty: verdict fixed at generation time (unsat = holds, sat = refuted with Output as reason)
 	Known    bool   // listed as a known finding: expected to fail, short timeout, no retry
 }
 
@@ -89,6 +90,11 @@ func Discharge(o *Obligation, scratch string, timeoutS int, only string) {
 	if o.Gen != "" {
 		o.Result = "cannot-generate"
 		o.Output = o.Gen
+		return
+	}
+	if o.Decided != "" {
+		// decided at generation time by a syntactic / type-directed rule (no solver query)
+		o.Result, o.Backend = o.Decided, "ownership-rule"
 		return
 	}
 	base := filepath.Join(scratch, sanitize(o.Name))
